@@ -39,6 +39,8 @@ func init() {
 			"\ts.writeSockAddrIpv4.Port = int(peerAddr.Port())\n", "", "C12-R1"},
 		mutant{"handler reads into the buffer captured at start", "multicast/reactor.go",
 			"\t\tr.peer.asyncReadNow(r.b, r.fn)", "\t\tr.peer.asyncReadNow(r.peer.read.b[:0], r.fn)", "C12-R2"},
+		mutant{"interface address copied without To4", "net/ipv4/multicast.go",
+			"\t\tcopy(addr[:], interfaceAddr.To4())", "\t\tcopy(addr[:], interfaceAddr)", "C12-R4"},
 		mutant{"handler clears the designated buffer", "multicast/reactor.go",
 			"\t\tr.peer.asyncReadNow(r.b, r.fn)", "\t\tb := r.b\n\t\tr.b = nil\n\t\tr.peer.asyncReadNow(b, r.fn)", "C12-R2"},
 		mutant{"destination cached by address identity", "packet.go",
@@ -529,6 +531,54 @@ func runC12(c *Ctx) {
 			okS := fill["Sourceaddr"] == spec.src
 			okI := fill["Interface"] == "" || fill["Interface"] == "mreq.Interface"
 			c.check(okM && okS && okI, fn, "request", fn.Pos(), fmt.Sprintf("%v", fill), fmt.Sprintf("%s fills its request as %v: group, interface and source must come from the like-named arguments", spec.fn, fill))
+		}
+		// a net.IP copied into a 4-byte kernel address goes through To4(): net.Interface.Addrs (and most of package net)
+		// hand out IPv4 addresses in their 16-byte form, whose first four bytes are zero
+		{
+			to4 := p.ExtMethod("net", "IP", "To4")
+			n := 0
+			for _, fn := range p.Funcs {
+				if pk := fnTypesPkg(fn); pk == nil || pk.Path() != modPath+"/net/ipv4" {
+					continue
+				}
+				eachInstr(fn, func(in ssa.Instruction) {
+					call, ok := in.(*ssa.Call)
+					if !ok {
+						return
+					}
+					if b, ok := call.Call.Value.(*ssa.Builtin); !ok || b.Name() != "copy" {
+						return
+					}
+					// destination: a slice of a [4]byte
+					dst, ok := stripConv(call.Call.Args[0]).(*ssa.Slice)
+					if !ok {
+						return
+					}
+					pt, ok := dst.X.Type().Underlying().(*types.Pointer)
+					if !ok {
+						return
+					}
+					arr, ok := pt.Elem().Underlying().(*types.Array)
+					if !ok || arr.Len() != 4 {
+						return
+					}
+					// source: of type net.IP?
+					src := call.Call.Args[1]
+					nt, ok := src.Type().(*types.Named)
+					if !ok || nt.Obj().Pkg() == nil || nt.Obj().Pkg().Path() != "net" || nt.Obj().Name() != "IP" {
+						return
+					}
+					n++
+					good := false
+					if sc, ok := stripConv(src).(*ssa.Call); ok && isCallTo(sc, to4) {
+						good = true
+					}
+					c.check(good, fn, "4-byte address", call.Pos(), "the net.IP is converted with To4() before its bytes are copied", "the first four bytes of a net.IP are copied into a 4-byte kernel address without To4(): for the 16-byte form net.Interface.Addrs returns they are zero, so the kernel is given 0.0.0.0 (its default interface) instead of the interface asked for")
+				})
+			}
+			if n == 0 {
+				c.Notes = append(c.Notes, "no net.IP is copied into a [4]byte in net/ipv4 (rule instance count 0)")
+			}
 		}
 		// setter/getter mappings
 		{
